@@ -1066,6 +1066,21 @@ pub fn run_c05(run: &mut Run, replay: Option<&std::path::Path>) -> anyhow::Resul
             }
             _ => {}
         }
+        // the property itself, on the implementation alone: for distinct identities both ends condemn the same
+        // connection (X dialled by a, Y dialled by b), and each end decides the same in either arrival order
+        if a != b {
+            let (i_, o_) = (ConnectionOrigin::Inbound, ConnectionOrigin::Outbound);
+            let a_drops_x_when_y_arrives = tie_break(&PeerId(a), &PeerId(b), o_, i_);
+            let a_drops_y_when_x_arrives = tie_break(&PeerId(a), &PeerId(b), i_, o_);
+            let b_drops_x_when_y_arrives = tie_break(&PeerId(b), &PeerId(a), i_, o_);
+            let b_drops_y_when_x_arrives = tie_break(&PeerId(b), &PeerId(a), o_, i_);
+            let a_keeps_x = !a_drops_x_when_y_arrives;
+            if a_drops_y_when_x_arrives != a_keeps_x || b_drops_y_when_x_arrives != !b_drops_x_when_y_arrives || a_keeps_x != !b_drops_x_when_y_arrives {
+                run.oracle_fail(json!({"kind": "simultaneous-dial tie-break: the two ends do not keep the same connection, or an end decides differently depending on arrival order",
+                    "a": hex::encode(a), "b": hex::encode(b), "a_keeps_its_own_dial": a_keeps_x, "a_drops_peers_dial_if_own_arrives_second": a_drops_y_when_x_arrives,
+                    "b_drops_as_dial_if_own_arrives_second": b_drops_x_when_y_arrives, "b_drops_own_dial_if_as_arrives_second": b_drops_y_when_x_arrives}));
+            }
+        }
         for e in [ConnectionOrigin::Inbound, ConnectionOrigin::Outbound] {
             for n in [ConnectionOrigin::Inbound, ConnectionOrigin::Outbound] {
                 let r = tie_break(&PeerId(a), &PeerId(b), e, n);
